@@ -41,6 +41,7 @@ type c03L struct {
 	rel    uint64
 	lines  []c03Ln
 	folded bool
+	abs    bool // rel is the ABSOLUTE address, wherever the mapping starts (it may lie below Start or beyond Limit)
 }
 type c03S struct {
 	locs    []int
@@ -232,6 +233,9 @@ func c03Instantiate(r *Rng, pool *c03Pool, h c03Header, uses []c03Use, idmode in
 		if l.m >= 0 {
 			loc.Mapping = ms[l.m]
 			loc.Address = ms[l.m].Start + l.rel
+			if l.abs {
+				loc.Address = l.rel
+			}
 		}
 		for _, ln := range l.lines {
 			loc.Line = append(loc.Line, profile.Line{Function: fs[ln.f], Line: ln.line, Column: ln.col})
@@ -798,6 +802,19 @@ func c03Muts() []c03Mut {
 		{"map.krs", withM(func(m *c03M) { m.krs = "_stext" })},
 		{"map.none", func(p *c03Pool) { p.ls[1].m = -1 }},
 		{"loc.addr", func(p *c03Pool) { p.ls[1].rel++ }},
+		// addresses at and beyond the edges of the mapping.  A location that carries a mapping but an
+		// address BELOW its start (typically 0: "no address") has the relative address A - Start mod
+		// 2^64; it is not the frame at Start + A
+		{"loc.below-start-twin", func(p *c03Pool) { p.ls[1].abs = true }},                    // absolute 0x100 next to Start+0x100
+		{"loc.below-start-zero", func(p *c03Pool) { p.ls[0].rel = 0; p.ls[1].rel, p.ls[1].abs = 0, true }}, // address 0 next to a frame AT the start
+		{"loc.below-start-one", func(p *c03Pool) { p.ls[0].rel = 1; p.ls[1].rel, p.ls[1].abs = 1, true }},
+		{"loc.below-start-two-abs", func(p *c03Pool) { p.ls[0].rel, p.ls[0].abs = 0, true; p.ls[1].rel, p.ls[1].abs = 0x100, true }},
+		{"loc.just-below-start", func(p *c03Pool) { p.ls[0].rel = 0; p.ls[1].rel = math.MaxUint64 }}, // Start-1 next to Start
+		{"loc.at-start", func(p *c03Pool) { p.ls[0].rel = 0; p.ls[1].rel = 1 }},
+		{"loc.at-limit", func(p *c03Pool) { p.ls[0].rel = p.ms[0].size - 1; p.ls[1].rel = p.ms[0].size }},
+		{"loc.beyond-limit", func(p *c03Pool) { p.ls[1].rel = p.ms[0].size + 0x100 }},
+		{"loc.top-of-space", func(p *c03Pool) { p.ls[1].rel, p.ls[1].abs = math.MaxUint64, true }},
+		{"loc.no-mapping-same-address", func(p *c03Pool) { p.ls[1].m = -1; p.ls[1].rel = 0x100 }}, // unmapped frame at the twin's relative address
 		{"loc.folded", func(p *c03Pool) { p.ls[1].folded = true }},
 		{"loc.fewer-lines", func(p *c03Pool) { p.ls[1].lines = p.ls[1].lines[:2] }},
 		{"loc.no-lines", func(p *c03Pool) { p.ls[1].lines = nil }},
